@@ -16,7 +16,7 @@ OBLIGATIONS = ["NiftyVerif.C06." + t for t in (
     "mean_weighted", "var_eq_weighted_variance", "structured_volume_consistent",
     "evalBin_spec", "pointwise_binop_elementwise", "pointwise_scalar_elementwise", "pointwise_unary", "clip_spec",
     "multifield_pointwise", "all_any_size_spec", "multifield_vdot", "multifield_vdot_conj_linear",
-    "flexible_addsub_spec", "field_norm", "prod_partial_total", "scalar_variants",
+    "flexible_addsub_spec", "field_norm", "prod_partial_total", "scalar_variants", "scalar_var",
     "weight_spec_driver", "integrate_driver", "mean_driver", "var_driver", "vdot_driver",
     "mean_weighted_driver", "var_weighted_driver", "pointwise_driver", "multifield_vdot_driver", "all_any_size_driver",
     "scalar_variants_driver")]
